@@ -317,6 +317,8 @@ void respond(World &W, Peer &p, Exchange &x, const Bytes &query)
 	std::string resp = ex.gets("resp", "auto");
 	uint8_t qv = (uint8_t)x.qver;
 	uint8_t rv = qv;
+	if (ex.has("rv") && ex.geti("rv") < (int64_t)qv)
+		rv = (uint8_t)ex.geti("rv"); // a cache may answer in a lower version than it was asked in
 	std::vector<Bytes> pdus;
 	bool closes = ex.geti("close", 0) != 0;
 	uint32_t iv[3] = {p.iv[0], p.iv[1], p.iv[2]};
@@ -405,6 +407,12 @@ void respond(World &W, Peer &p, Exchange &x, const Bytes &query)
 	x.closes = closes;
 	x.start_off = p.in_stream.size();
 	queue_bytes(W, p, all, W.lat_min_ns + W.lat.below(W.lat_jit_ns + 1));
+	if (ex.has("down_s")) { // the cache goes away after this answer
+		closes = true;
+		x.closes = true;
+		p.down_until = sim_now_ns() + (uint64_t)ex.geti("down_s") * SIM_NS;
+		W.ctx.count("fault_unreachable");
+	}
 	if (closes)
 		p.peer_closed = true;
 	// scheduled data change + Serial Notify
@@ -427,7 +435,7 @@ void respond(World &W, Peer &p, Exchange &x, const Bytes &query)
 void cache_enter_clean_if_due(World &W, Peer &p)
 {
 	(void)W;
-	if (!p.clean && p.xi >= p.script.size() && p.pending.empty()) {
+	if (!p.clean && p.xi >= p.script.size() && p.pending.empty() && sim_now_ns() >= p.down_until) {
 		p.oi = p.opens.size(); // the fault phase is over: connection attempts succeed from now on
 		p.clean = true;
 		p.t_clean = sim_now_ns();
